@@ -5,28 +5,35 @@
   by zero or INT64_MIN divided by -1, float-to-integer cast out of range, out-of-bounds table index) is an error value, so
   "returns normally" is `∃ r, f x = .ok r`.  One theorem per entry point, for EVERY argument of its domain
   (finite or NaN fixed_t = every int64 except INT64_MIN; every value of the integral type; shift counts in
-  [INT_MIN, 63]).  `C07_proved` is their conjunction.
+  [INT_MIN, 63]; every datum of the float format = every bit pattern).  Covered: + - * / and scalar forms, conversions
+  (integral and floating), unary functions, shifts, &, angle_to_radians, sin cos tan, asin acos, sqrt (both back-ends,
+  every argument), hypot (both back-ends, every pair), atan, atan2, sin/cos/tan_angle (integral, fixed_t, float),
+  the operators with a float operand, sin/cos_angle_aprox, sqrt_aprox, hypot_aprox, atan_index_aprox, atan_aprox.
+  The operators with a `double` operand are pure IEEE operations of the model (`FP → FP → FP`, no error value exists),
+  after `fixed_to_floating_point` which is total as well: nothing to prove for them.  `C07_remaining` is empty.
 
-  Entry points NOT covered by a theorem here (stated in `C07_remaining`): atan, atan2, hypot, sqrt with the std::sqrt
-  back-end, sqrt_aprox, hypot_aprox, atan_index_aprox, atan_aprox, and the float-argument conversions.  For those the
-  model's UB verdict is only observed (model driver) and compared with the UBSan/ASan/_GLIBCXX_ASSERTIONS build of the
-  real library on every run (C07 suite: ~1.2 M calls incl. NaN and extreme arguments) — evidence, not proof.
+  The sanitizer leg (UBSan/ASan/_GLIBCXX_ASSERTIONS/float-cast-overflow build of the real library, ~1.2 M calls incl.
+  NaN and extreme arguments on every run) ties the model's verdict to the binary.
 -/
 import FixedMath.Spec.C01
 import FixedMath.Spec.C02
 import FixedMath.Spec.C03
 import FixedMath.Spec.C04
+import FixedMath.Spec.C05
 import FixedMath.Spec.C06
 import FixedMath.Spec.C09
 import FixedMath.Spec.C10
+import FixedMath.Spec.C11
 import FixedMath.Spec.C12
+import FixedMath.Spec.C13
+import FixedMath.Spec.C14
 import FixedMath.Spec.C15
 import FixedMath.Spec.C18
 import FixedMath.Spec.C19
 import FixedMath.Spec.C20
 
 namespace FixedMath
-open Gen
+open Gen R
 
 /-- the argument domain of C07 for a fixed_t parameter: every raw value except INT64_MIN -/
 def dom (v : Int) : Prop := -9223372036854775808 < v ∧ v ≤ 9223372036854775807
@@ -205,9 +212,443 @@ theorem C07_angle_aprox (d : Int) (h1 : -2147483648 ≤ d) (h2 : d ≤ 214748364
   obtain ⟨c, hc, _⟩ := C19_cos_aprox d h1 h2
   exact ⟨⟨s, hs⟩, ⟨c, hc⟩⟩
 
-/-- entry points whose UB-freedom is not (yet) a theorem: observed by the sanitizer leg only -/
-def C07_remaining : List String :=
-  ["atan", "atan2", "hypot", "sqrt (std::sqrt back-end)", "sqrt_aprox", "hypot_aprox", "atan_index_aprox", "atan_aprox",
-   "fixed_t(float)", "fixed_t(double)", "operator+-*/ with a float operand", "sin_angle/cos_angle/tan_angle(float)"]
+theorem list_all_getD (L : List Int) (P : Int → Bool) (h : L.all P = true) (i : Nat) (hi : i < L.length) :
+    P (L.getD i 0) = true := by
+  rw [List.all_eq_true] at h
+  apply h
+  rw [List.getD_eq_getElem?_getD, List.getElem?_eq_getElem hi]
+  exact List.getElem_mem hi
+
+set_option maxRecDepth 1000000 in
+theorem sqrtTab_bounds : square_root_tableL.all (fun e => decide (0 ≤ e ∧ e < 1048576)) = true := by decide +kernel
+set_option maxRecDepth 1000000 in
+theorem tanTab_bounds : tan_tableL.all (fun e => decide (-4611686018427387904 < e ∧ e < 4611686018427387904)) = true := by decide +kernel
+
+theorem squareRootTab_ok (i : Int) (h0 : 0 ≤ i) (h1 : i < 256) : ∃ e, squareRootTab i = .ok e ∧ 0 ≤ e ∧ e < 1048576 := by
+  have hi : i.toNat < square_root_tableL.length := by rw [sqrtTab_len]; omega
+  have := idx_table square_root_tableL i.toNat hi
+  rw [Int.toNat_of_nonneg h0] at this
+  refine ⟨_, this, ?_⟩
+  have hb := list_all_getD _ _ sqrtTab_bounds i.toNat hi
+  simpa using hb
+
+theorem tanTab_ok (i : Int) (h0 : 0 ≤ i) (h1 : i < 256) :
+    ∃ e, tanTab i = .ok e ∧ -4611686018427387904 < e ∧ e < 4611686018427387904 := by
+  have hi : i.toNat < tan_tableL.length := by rw [tanTab_len]; omega
+  have := idx_table tan_tableL i.toNat hi
+  rw [Int.toNat_of_nonneg h0] at this
+  refine ⟨_, this, ?_⟩
+  have hb := list_all_getD _ _ tanTab_bounds i.toNat hi
+  simpa using hb
+
+theorem rbitScanClz_range (x : Int) (h0 : 0 ≤ x) (h1 : x < 4294967296) : 0 ≤ rbitScanClz x ∧ rbitScanClz x ≤ 32 := by
+  unfold rbitScanClz clz32
+  by_cases hz : x = 0
+  · subst hz; simp
+  · rw [if_pos hz, if_neg (by omega)]
+    have hx : x.toNat ≠ 0 := by omega
+    have : Nat.log2 x.toNat < 32 := (Nat.log2_lt hx).mpr (by omega)
+    omega
+
+theorem rbitScanClz_le (x : Int) (k : Nat) (h0 : 0 ≤ x) (h1 : x < 2 ^ k) : rbitScanClz x ≤ k := by
+  unfold rbitScanClz clz32
+  by_cases hz : x = 0
+  · subst hz; simp
+  · rw [if_pos hz, if_neg (by omega)]
+    have hx : x.toNat ≠ 0 := by omega
+    have h1' : x.toNat < 2 ^ k := by
+      have : ((x.toNat : ℕ) : Int) < ((2 ^ k : ℕ) : Int) := by rw [Int.toNat_of_nonneg h0]; push_cast; exact h1
+      exact_mod_cast this
+    have : Nat.log2 x.toNat < k := (Nat.log2_lt hx).mpr h1'
+    omega
+
+theorem andFE_range (y : Int) (h0 : 0 ≤ y) (h1 : y ≤ 34) : 0 ≤ andFE y ∧ andFE y ≤ y ∧ andFE y % 2 = 0 := by
+  unfold andFE; omega
+
+
+theorem pow_even_bound (c : Int) (h0 : 0 ≤ c) (h1 : c ≤ 16) : (1 : Int) ≤ 2 ^ c.toNat ∧ (2 : Int) ^ c.toNat ≤ 65536 := by
+  have hc : c.toNat ≤ 16 := by omega
+  constructor
+  · have : (0 : Int) < 2 ^ c.toNat := by positivity
+    omega
+  · have : (2 : Int) ^ c.toNat ≤ 2 ^ 16 := by exact_mod_cast Nat.pow_le_pow_right (by norm_num : 0 < 2) hc
+    norm_num at this; exact this
+
+theorem shr64_ok (x r : Int) (h : 0 ≤ r ∧ r < 64) : shr64 x r = .ok (x / 2 ^ r.toNat) := by
+  unfold shr64; rw [if_pos h]; rfl
+theorem shrU64_ok (x r : Int) (h : 0 ≤ r ∧ r < 64) : shrU64 x r = .ok (x / 2 ^ r.toNat) := by
+  unfold shrU64; rw [if_pos h]; rfl
+theorem shl64_ok (x r : Int) (h : 0 ≤ r ∧ r < 64) (hx : 0 ≤ x) (hp : x * 2 ^ r.toNat < two64) :
+    shl64 x r = .ok (toI64 (x * 2 ^ r.toNat)) := by
+  unfold shl64; rw [if_pos h, if_neg (by omega), if_neg (by omega)]; rfl
+
+theorem C07_sqrt_aprox (v : Int) (hv : dom v) : ∃ r, sqrtAprox v ⇓ r := by
+  unfold dom at hv
+  unfold sqrtAprox
+  by_cases h0 : v ≤ 0
+  · rw [if_pos h0]; split <;> exact ⟨_, rfl⟩
+  · rw [if_neg h0, shr64_ok v 6 (by omega)]
+    simp only [bind, Except.bind]
+    generalize hs : toU32 (v / 2 ^ (6 : Int).toNat) = s
+    have hs0 : 0 ≤ s ∧ s < 4294967296 := by rw [← hs]; unfold toU32; omega
+    obtain ⟨r0, r1⟩ := rbitScanClz_range s hs0.1 hs0.2
+    obtain ⟨c0, c1, c2⟩ := andFE_range (rbitScanClz s) r0 (by omega)
+    generalize hcl : andFE (rbitScanClz s) = cl at c0 c1 c2 ⊢
+    rw [shr64_ok v cl (by omega)]
+    simp only []
+    generalize hidx : toU8 (toI32 (v / 2 ^ cl.toNat)) = ix
+    have hix : 0 ≤ ix ∧ ix < 256 := by rw [← hidx]; unfold toU8; omega
+    obtain ⟨e, he, e0, e1⟩ := squareRootTab_ok ix hix.1 hix.2
+    rw [he, shr64_ok cl 1 (by omega)]
+    simp only []
+    have hp1 : (2 : Int) ^ (1 : Int).toNat = 2 := by decide
+    rw [hp1]
+    have hc2 : 0 ≤ cl / 2 ∧ cl / 2 ≤ 16 := by omega
+    obtain ⟨p1, p2⟩ := pow_even_bound (cl / 2) hc2.1 hc2.2
+    rw [shl64_ok e (cl / 2) (by omega) e0 (by unfold two64; nlinarith)]
+    simp only []
+    rw [shr64_ok _ 4 (by omega)]
+    exact ⟨_, rfl⟩
+
+theorem C07_hypot_aprox (a b : Int) (_ha : dom a) (_hb : dom b) : ∃ r, hypotAprox a b ⇓ r := by
+  unfold hypotAprox
+  simp only [bind, Except.bind, pure, Except.pure]
+  generalize hsum : ((toU64 a * toU64 a) % two64 + (toU64 b * toU64 b) % two64) % two64 = sum
+  have hs0 : 0 ≤ sum := by rw [← hsum]; unfold two64; omega
+  by_cases hbig : sum > 70368744177663
+  · rw [if_pos hbig]; exact ⟨_, rfl⟩
+  · rw [if_neg hbig]
+    generalize hhi : toU32 (sum / 4294967296) = hi
+    have hhi0 : 0 ≤ hi ∧ hi < 16384 := by rw [← hhi]; unfold toU32; omega
+    obtain ⟨r0, _⟩ := rbitScanClz_range hi hhi0.1 (by omega)
+    have r1 := rbitScanClz_le hi 14 hhi0.1 (by norm_num; omega)
+    by_cases hc : rbitScanClz hi ≠ 0
+    · rw [if_pos hc]
+      obtain ⟨c0, c1, c2⟩ := andFE_range (rbitScanClz hi + 2) (by omega) (by omega)
+      generalize hcl : andFE (rbitScanClz hi + 2) = cl at c0 c1 c2 ⊢
+      rw [shrU64_ok sum cl (by omega)]
+      simp only []
+      generalize hidx : toU8 (toU32 (sum / 2 ^ cl.toNat / 16777216 % 256)) = ix
+      have hix : 0 ≤ ix ∧ ix < 256 := by rw [← hidx]; unfold toU8; omega
+      obtain ⟨e, he, e0, e1⟩ := squareRootTab_ok ix hix.1 hix.2
+      rw [he, shr64_ok cl 1 (by omega)]
+      simp only []
+      have hp1 : (2 : Int) ^ (1 : Int).toNat = 2 := by decide
+      rw [hp1]
+      obtain ⟨p1, p2⟩ := pow_even_bound (cl / 2) (by omega) (by omega)
+      rw [shl64_ok e (cl / 2) (by omega) e0 (by unfold two64; nlinarith)]
+      exact ⟨_, rfl⟩
+    · rw [if_neg hc]
+      generalize hlo : toU32 (sum % 4294967296) / 65536 = lo
+      have hlo0 : 0 ≤ lo ∧ lo < 65536 := by rw [← hlo]; unfold toU32; omega
+      obtain ⟨q0, _⟩ := rbitScanClz_range (lo / 64) (by omega) (by omega)
+      have q1 := rbitScanClz_le (lo / 64) 10 (by omega) (by norm_num; omega)
+      obtain ⟨c0, c1, c2⟩ := andFE_range (rbitScanClz (lo / 64)) q0 (by omega)
+      generalize hcl : andFE (rbitScanClz (lo / 64)) = cl at c0 c1 c2 ⊢
+      rw [shrU64_ok lo cl (by omega)]
+      simp only []
+      generalize hidx : toU8 (lo / 2 ^ cl.toNat) = ix
+      have hix : 0 ≤ ix ∧ ix < 256 := by rw [← hidx]; unfold toU8; omega
+      obtain ⟨e, he, e0, e1⟩ := squareRootTab_ok ix hix.1 hix.2
+      rw [he, shr64_ok cl 1 (by omega)]
+      simp only []
+      have hp1 : (2 : Int) ^ (1 : Int).toNat = 2 := by decide
+      rw [hp1]
+      obtain ⟨p1, p2⟩ := pow_even_bound (cl / 2) (by omega) (by omega)
+      rw [shl64_ok e (cl / 2) (by omega) e0 (by unfold two64; nlinarith)]
+      simp only []
+      rw [shr64_ok _ 4 (by omega)]
+      exact ⟨_, rfl⟩
+
+/-- `std::lower_bound` over a 256-entry table: every access in bounds, result inside the searched window -/
+theorem lowerBound_ok (value : Int) : ∀ (fuel : Nat) (first len : Int), 0 ≤ first → 0 ≤ len → first + len ≤ 256 →
+    ∃ r, lowerBound tan_table value fuel first len = .ok r ∧ first ≤ r ∧ r ≤ first + len := by
+  intro fuel
+  induction fuel with
+  | zero => intro first len h0 h1 h2; exact ⟨first, rfl, le_refl _, by omega⟩
+  | succ n ih =>
+    intro first len h0 h1 h2
+    unfold lowerBound
+    by_cases hl : len > 0
+    · rw [if_pos hl]
+      simp only [bind, Except.bind]
+      obtain ⟨e, he, _⟩ := tanTab_ok (first + len / 2) (by omega) (by omega)
+      unfold tanTab at he
+      rw [he]
+      simp only []
+      by_cases hlt : e < value
+      · rw [if_pos hlt]
+        obtain ⟨r, hr, r1, r2⟩ := ih (first + len / 2 + 1) (len - len / 2 - 1) (by omega) (by omega) (by omega)
+        exact ⟨r, hr, by omega, by omega⟩
+      · rw [if_neg hlt]
+        obtain ⟨r, hr, r1, r2⟩ := ih first (len / 2) h0 (by omega) (by omega)
+        exact ⟨r, hr, r1, by omega⟩
+    · rw [if_neg hl]; exact ⟨first, rfl, le_refl _, by omega⟩
+
+
+theorem shl15_ok (j : Int) (j0 : 0 ≤ j) (j1 : j ≤ 256) :
+    ∃ r, atanIndexAprox.shl64' j = .ok r ∧ 0 ≤ r ∧ r ≤ 8388608 := by
+  unfold atanIndexAprox.shl64'
+  have hp : (2 : Int) ^ (15 : Int).toNat = 32768 := by decide
+  rw [shl64_ok j 15 (by omega) j0 (by rw [hp]; unfold two64; omega), hp]
+  refine ⟨_, rfl, ?_⟩
+  unfold toI64 two64 two63; simp only []; split <;> omega
+
+theorem m128_ok : toFixed .i64 128 = .ok 8388608 := by decide +kernel
+
+theorem C07_atan_index_aprox (v : Int) (hv : dom v) : ∃ r, atanIndexAprox v ⇓ r := by
+  unfold atanIndexAprox
+  by_cases h0 : v ≥ 0
+  · rw [if_pos h0]
+    obtain ⟨i, hi, i0, i1⟩ := lowerBound_ok v 16 0 128 (by omega) (by omega) (by omega)
+    simp only [bind, Except.bind, hi, pure, Except.pure]
+    by_cases hi0 : i ≠ 0
+    · rw [if_pos hi0]
+      obtain ⟨hi', hhi, hi1, hi2⟩ := tanTab_ok (toU8 i) (by unfold toU8; omega) (by unfold toU8; omega)
+      obtain ⟨lo, hlo, lo1, lo2⟩ := tanTab_ok (toU8 (i - 1)) (by unfold toU8; omega) (by unfold toU8; omega)
+      obtain ⟨a, ha⟩ := (C07_add_sub hi' v (by unfold dom; omega) hv).2
+      obtain ⟨b, hb⟩ := (C07_add_sub v lo hv (by unfold dom; omega)).2
+      simp only [hhi, hlo, ha, hb]
+      by_cases hab : a > b
+      · simp only [hab, if_true]
+        obtain ⟨r, hr, _⟩ := shl15_ok (i - 1) (by omega) (by omega)
+        exact ⟨r, hr⟩
+      · simp only [hab, if_false]
+        obtain ⟨r, hr, _⟩ := shl15_ok i (by omega) (by omega)
+        exact ⟨r, hr⟩
+    · rw [if_neg hi0]
+      obtain ⟨r, hr, _⟩ := shl15_ok i (by omega) (by omega)
+      exact ⟨r, hr⟩
+  · rw [if_neg h0]
+    obtain ⟨i, hi, i0, i1⟩ := lowerBound_ok v 16 128 128 (by omega) (by omega) (by omega)
+    have fin_tail : ∀ s : Int, 0 ≤ s → s ≤ 8388608 →
+        ∃ r, (match toFixed IT.i64 128 with
+          | Except.error err => Except.error err
+          | Except.ok m => match neg m with
+            | Except.error err => Except.error err
+            | Except.ok m => add m s) = Except.ok r := by
+      intro s s0 s1
+      rw [m128_ok]
+      have : neg 8388608 = .ok (-8388608) := by decide
+      simp only [this]
+      exact (C07_add_sub (-8388608) s (by unfold dom; omega) (by unfold dom; omega)).1
+    simp only [bind, Except.bind, hi, pure, Except.pure]
+    by_cases hi0 : i ≠ 0
+    · rw [if_pos hi0]
+      obtain ⟨hi', hhi, hi1, hi2⟩ := tanTab_ok (toU8 i) (by unfold toU8; omega) (by unfold toU8; omega)
+      obtain ⟨lo, hlo, lo1, lo2⟩ := tanTab_ok (toU8 (i - 1)) (by unfold toU8; omega) (by unfold toU8; omega)
+      obtain ⟨a, ha⟩ := (C07_add_sub hi' v (by unfold dom; omega) hv).2
+      obtain ⟨b, hb⟩ := (C07_add_sub v lo hv (by unfold dom; omega)).2
+      simp only [hhi, hlo, ha, hb]
+      by_cases hab : a > b
+      · simp only [hab, if_true]
+        obtain ⟨r, hr, r0, r1⟩ := shl15_ok (i - 1) (by omega) (by omega)
+        rw [hr]; exact fin_tail r r0 r1
+      · simp only [hab, if_false]
+        obtain ⟨r, hr, r0, r1⟩ := shl15_ok i (by omega) (by omega)
+        rw [hr]; exact fin_tail r r0 r1
+    · rw [if_neg hi0]
+      obtain ⟨r, hr, r0, r1⟩ := shl15_ok i (by omega) (by omega)
+      rw [hr]; exact fin_tail r r0 r1
+
+theorem C07_atan_aprox (v : Int) (hv : dom v) : ∃ r, atanAprox v ⇓ r := by
+  unfold atanAprox
+  obtain ⟨i, hi⟩ := C07_atan_index_aprox v hv
+  simp only [bind, Except.bind, hi]
+  exact C07_mul i fixtorad_r
+
+
+/-- `hypotU` returns for every `uint64` magnitude pair with a large first operand (no range restriction) -/
+theorem hypotU_total_big (be : SqrtBE) (hs : SqrtNear be) (A B : Int) (hA0 : 1073741824 ≤ A) (hA : A ≤ 9223372036854775807)
+    (hB0 : 0 ≤ B) (hBA : B ≤ A) : ∃ h : Int, hypotU be A B = .ok h := by
+  obtain ⟨L, hclz, hL1, hL2⟩ := clz64_spec A (by omega)
+  have hLlo : 30 < L + 1 := pow_le_of_lt 30 A (L + 1) (by norm_num; omega) hL2
+  have hLhi : L < 63 := pow_le_of_lt L A 63 hL1 (by norm_num; omega)
+  unfold hypotU
+  rw [if_neg (by omega), if_pos (by omega), hclz]
+  simp only []
+  have hr : (48 : Int) - (63 - (L : Int)) = ((L - 15 : ℕ) : Int) := by omega
+  rw [hr]
+  set sN : Nat := L - 15 with hsN
+  have hsr : (0 : Int) ≤ (sN : Int) ∧ (sN : Int) < 64 := by omega
+  unfold shrU64 shlU64
+  simp only [hsr, and_self, if_true, Int.toNat_natCast, bind, Except.bind, pure, Except.pure]
+  generalize hp : (2 : Int) ^ sN = p
+  have hp1 : 1 ≤ p := by
+    rw [← hp]; have : (0 : Int) < 2 ^ sN := by positivity
+    omega
+  have hLp : (2 : Int) ^ L = 32768 * p := by
+    have : L = 15 + sN := by omega
+    rw [this, pow_add, hp]; norm_num
+  have hL2' : A < 65536 * p := by
+    have : (2 : Int) ^ (L + 1) = 2 * 2 ^ L := by rw [pow_succ]; ring
+    rw [this, hLp] at hL2; omega
+  generalize ha : A / p = a
+  generalize hb : B / p = b
+  have hA1 : a * p ≤ A := by rw [← ha]; exact Int.ediv_mul_le A (by omega)
+  have hb0 : 0 ≤ b := by rw [← hb]; exact Int.ediv_nonneg hB0 (by omega)
+  have ha0 : 0 ≤ a := by rw [← ha]; exact Int.ediv_nonneg (by omega) (by omega)
+  have ha2 : a < 65536 := by
+    by_contra hc; push Not at hc
+    have : 65536 * p ≤ a * p := Int.mul_le_mul_of_nonneg_right hc (by omega)
+    omega
+  have hba : b ≤ a := by
+    rw [← ha, ← hb]; exact Int.ediv_le_ediv (by omega) hBA
+  have haa : a * a < 65536 * 65536 := by
+    have := sq_mono a 65535 (by omega) (by omega); omega
+  have hbb : b * b ≤ a * a := sq_mono _ _ hb0 hba
+  have hbb0 : 0 ≤ b * b := Int.mul_nonneg hb0 hb0
+  have haa0 : 0 ≤ a * a := Int.mul_nonneg ha0 ha0
+  unfold two64
+  generalize hS : a * a + b * b = S' at *
+  have m3 : S' % 18446744073709551616 = S' := by omega
+  rw [m3, toI64_of_range (by omega) (by omega)]
+  obtain ⟨q, hq, hq0, _, _⟩ := hs (S' / 65536) (by omega) (by omega)
+  rw [hq]
+  simp only []
+  split <;> exact ⟨_, rfl⟩
+
+theorem C07_hypot (be : SqrtBE) (hs : SqrtNear be) (a b : Int) (ha : dom a) (hb : dom b) : ∃ h, hypot be a b ⇓ h := by
+  unfold dom at ha hb
+  rw [hypot_eq be a b ha hb]
+  generalize hx : (if a < 0 then -a else a) = x
+  generalize hy : (if b < 0 then -b else b) = y
+  have hx0 : 0 ≤ x ∧ x ≤ 9223372036854775807 := by rw [← hx]; split <;> omega
+  have hy0 : 0 ≤ y ∧ y ≤ 9223372036854775807 := by rw [← hy]; split <;> omega
+  by_cases hbig : max x y < 140737488355328
+  · obtain ⟨h, hh, _⟩ := hypotU_acc be hs (max x y) (min x y) (by omega) (by omega) hbig
+    exact ⟨h, hh⟩
+  · exact hypotU_total_big be hs (max x y) (min x y) (by omega) (by omega) (by omega) (by omega)
+
+theorem C07_hypot_both (a b : Int) (ha : dom a) (hb : dom b) : (∃ h, hypot .abacus a b ⇓ h) ∧ (∃ h, hypot .std a b ⇓ h) :=
+  ⟨C07_hypot .abacus sqrtNear_abacus a b ha hb, C07_hypot .std sqrtNear_std a b ha hb⟩
+
+theorem C07_atan (v : Int) (hv : dom v) : ∃ a, (atan v ⇓ a) ∧ -102944 ≤ a ∧ a ≤ 102944 := by
+  unfold dom at hv
+  by_cases h0 : 0 ≤ v
+  · obtain ⟨a, ha, a0, a1, _⟩ := atan_nonneg_acc v h0 hv.2
+    exact ⟨a, ha, by omega, a1⟩
+  · obtain ⟨a, ha, a0, a1, _⟩ := atan_nonneg_acc (-v) (by omega) (by omega)
+    have hn := atan_neg (-v) a (by omega) (by omega) ha (by omega)
+    rw [Int.neg_neg] at hn
+    exact ⟨-a, hn, by omega, by omega⟩
+
+theorem C07_atan2 (y x : Int) (hy : dom y) (hx : dom x) : ∃ r, atan2 y x ⇓ r := by
+  have hq : ∃ q, (div y x ⇓ q) ∧ dom q := by
+    refine ⟨_, div_closed y x hy.1 hy.2, ?_⟩
+    unfold dom NaNp lim_quiet_NaN
+    split
+    · rename_i h
+      have : (Int.tdiv (y * 65536) x).natAbs ≤ (y * 65536).natAbs := by
+        rw [Int.natAbs_tdiv]; exact Nat.div_le_self _ _
+      omega
+    · omega
+  unfold atan2
+  by_cases h1 : x > 0
+  · rw [if_pos h1]
+    obtain ⟨q, hq1, hq2⟩ := hq
+    obtain ⟨a, ha, _⟩ := C07_atan q hq2
+    simp only [bind, Except.bind, hq1]
+    exact ⟨a, ha⟩
+  · rw [if_neg h1]
+    by_cases h2 : x < 0
+    · rw [if_pos h2]
+      obtain ⟨q, hq1, hq2⟩ := hq
+      obtain ⟨a, ha, a0, a1⟩ := C07_atan q hq2
+      simp only [bind, Except.bind, hq1, ha]
+      have hphi : dom phi := by unfold dom phi; omega
+      split
+      · exact (C07_add_sub a phi (by unfold dom; omega) hphi).1
+      · exact (C07_add_sub a phi (by unfold dom; omega) hphi).2
+    · rw [if_neg h2]
+      split
+      · exact ⟨_, rfl⟩
+      · split
+        · exact ⟨-fixpidiv2, by decide⟩
+        · exact ⟨_, rfl⟩
+
+
+/-- `floating_point_to_fixed<F>` returns, with a value that is a valid fixed_t argument, for every datum -/
+theorem C07_from_float (f : Fmt) (hf : GoodFmt f) (v : FP) (hv : InFmt f v) : ∃ r, (fpToFixed f v ⇓ r) ∧ dom r := by
+  obtain ⟨h1, h2⟩ := C05_to f hf v hv
+  by_cases hc : v.Finite ∧ |v.val| < 2147483647
+  · obtain ⟨r, hr, _, herr, _⟩ := h1 hc
+    refine ⟨r, hr, ?_⟩
+    have hp : (2 : ℝ) ^ (-(f.p : ℤ)) ≤ 1 := by
+      apply zpow_le_one_of_nonpos₀ (by norm_num); omega
+    have hpp : (0 : ℝ) < (2 : ℝ) ^ (-(f.p : ℤ)) := by positivity
+    have hv0 : 0 ≤ |v.val| := abs_nonneg _
+    have hb : (|v.val| * 65536 + 1 / 2) * (2 : ℝ) ^ (-(f.p : ℤ)) ≤ (|v.val| * 65536 + 1 / 2) * 1 :=
+      mul_le_mul_of_nonneg_left hp (by positivity)
+    obtain ⟨e1, e2⟩ := abs_le.mp herr
+    obtain ⟨v1, v2⟩ := abs_le.mp (le_of_lt hc.2)
+    have a1 : (r : ℝ) < 9223372036854775807 := by nlinarith [abs_nonneg v.val, le_abs_self v.val, neg_abs_le v.val]
+    have a2 : (-9223372036854775807 : ℝ) < (r : ℝ) := by nlinarith [abs_nonneg v.val, le_abs_self v.val, neg_abs_le v.val]
+    have b1 : r < 9223372036854775807 := by exact_mod_cast a1
+    have b2 : -9223372036854775807 < r := by exact_mod_cast a2
+    unfold dom; omega
+  · exact ⟨NaNp, h2 hc, by unfold dom NaNp lim_quiet_NaN; omega⟩
+
+/-- the four operators with a `float` operand, both operand orders -/
+theorem C07_float_ops (a : Int) (ha : dom a) (v : FP) (hv : InFmt b32 v) :
+    (∃ r, addFloat a v ⇓ r) ∧ (∃ r, addFloatL v a ⇓ r) ∧ (∃ r, subFloat a v ⇓ r) ∧ (∃ r, subFloatL v a ⇓ r) ∧
+    (∃ r, mulFloat a v ⇓ r) ∧ (∃ r, mulFloatL v a ⇓ r) ∧ (∃ r, divFloat a v ⇓ r) ∧ (∃ r, divFloatL v a ⇓ r) := by
+  obtain ⟨c, hc, hcd⟩ := C07_from_float b32 good_b32 v hv
+  unfold addFloat addFloatL subFloat subFloatL mulFloat mulFloatL divFloat divFloatL promoteFloat
+  simp only [bind, Except.bind, hc]
+  exact ⟨(C07_add_sub a c ha hcd).1, (C07_add_sub c a hcd ha).1, (C07_add_sub a c ha hcd).2, (C07_add_sub c a hcd ha).2,
+    C07_mul a c, C07_mul c a, C07_div a c ha, C07_div c a hcd⟩
+
+/-- `x * phi / 180` for a fixed_t `x` -/
+theorem angle_tail (f : Int) : ∃ a, (do let m ← mul f phi; divScalar .i32 m 180 : M Int) = .ok a ∧ dom a := by
+  have hm := mul_closed f phi
+  simp only [bind, Except.bind, hm]
+  generalize hmv : (if -9223372036854775808 ≤ f * phi ∧ f * phi ≤ 9223372036854775807 then f * phi / 65536 else NaNp) = m
+  have hmd : dom m := by
+    rw [← hmv]; unfold dom NaNp lim_quiet_NaN; split <;> omega
+  obtain ⟨q, hq⟩ := C07_divScalar .i32 m 180 hmd (by simp only [IT.mem, IT.lo, IT.hi]; omega)
+  refine ⟨q, hq, ?_⟩
+  unfold divScalar at hq
+  have h180 : (180 : Int) ≠ 0 := by omega
+  have hnot : ¬ (IT.i32 = IT.u64 ∧ (180 : Int) > i64max) := by simp
+  rw [if_pos h180, if_neg hnot] at hq
+  unfold promote div64 i64min at hq
+  unfold dom at hmd
+  have c1 : ¬ ((180 : Int) = 0) := by omega
+  have c2 : ¬ (m = -9223372036854775808 ∧ (180 : Int) = -1) := by omega
+  have c0 : ¬ (IT.i32 = IT.u64) := by decide
+  rw [if_neg c0, if_neg c1, if_neg c2] at hq
+  have := Except.ok.inj hq
+  have hb := Int.natAbs_tdiv_le_natAbs m 180
+  unfold dom; omega
+
+/-- sin_angle / cos_angle / tan_angle for fixed_t and for float arguments -/
+theorem C07_angle_fixed_float (x : Int) (v : FP) (hv : InFmt b32 v) :
+    ((∃ r, sinAngleFixed x ⇓ r) ∧ (∃ r, cosAngleFixed x ⇓ r) ∧ (∃ r, tanAngleFixed x ⇓ r)) ∧
+    ((∃ r, sinAngleFloat v ⇓ r) ∧ (∃ r, cosAngleFloat v ⇓ r) ∧ (∃ r, tanAngleFloat v ⇓ r)) := by
+  constructor
+  · obtain ⟨a, ha, hd⟩ := angle_tail x
+    obtain ⟨h1, h2, h3⟩ := C07_sin_cos_tan a hd
+    unfold sinAngleFixed cosAngleFixed tanAngleFixed angleArgFixed
+    simp only [bind, Except.bind] at ha ⊢
+    rw [ha]
+    exact ⟨h1, h2, h3⟩
+  · obtain ⟨c, hc, _⟩ := C07_from_float b32 good_b32 v hv
+    obtain ⟨a, ha, hd⟩ := angle_tail c
+    obtain ⟨h1, h2, h3⟩ := C07_sin_cos_tan a hd
+    unfold sinAngleFloat cosAngleFloat tanAngleFloat angleArgFloat
+    simp only [bind, Except.bind, hc] at ha ⊢
+    rw [ha]
+    exact ⟨h1, h2, h3⟩
+
+/-- `sqrt` with either back-end, for every argument -/
+theorem C07_sqrt (be : SqrtBE) (v : Int) (hv : dom v) : ∃ r, sqrt be v ⇓ r := by
+  cases be with
+  | abacus => exact C07_sqrt_abacus v
+  | std => exact sqrtStd_total v (by unfold dom at hv; omega) hv.2
+
+
+/-- entry points whose UB-freedom is not a theorem: none -/
+def C07_remaining : List String := []
 
 end FixedMath
